@@ -31,6 +31,7 @@ Bodies ==
 \cup (IF Level = 2 THEN
         {Lit(NumD(N1), <<R("or", [t |-> "list", items |-> <<TRef(x), IdV("integer")>>])>>) : x \in Targets}
    \cup {Obj(<<P(Ka, One)>>, <<R("additionalProperties", TRef(x))>>) : x \in Targets}
+   \cup {Obj(<<>>, <<R("additionalProperties", TRef(x))>>) : x \in Targets}
    \cup {Obj(<<P(Ka, Ref(<<x, y>>, <<>>))>>, <<>>) : x \in Targets \ {"@missing"}, y \in Targets \ {"@missing"}}
       ELSE {})
 DeepBodies == {One} \cup {Obj(<<P(Ka, Ref(<<x>>, <<>>))>>, <<>>) : x \in Targets \ {"@missing"}}
@@ -44,7 +45,10 @@ KeyBodies == {One, StrLit}
         \cup {Ref(<<x>>, <<>>) : x \in Targets}
         \cup {Ref(<<x, y>>, <<>>) : x \in Targets \ {"@missing"}, y \in Targets \ {"@missing"}}
         \cup {Obj(<<SC(x, One)>>, <<>>) : x \in Targets}
-KeyRoots == {Obj(<<SC("@t0", One)>>, <<>>), Obj(<<P(Kr, Ref(<<"@t0">>, <<>>)), SC("@t1", Ref(<<"@t0">>, <<OptR>>))>>, <<>>)}
+KeyRoots == {Obj(<<SC("@t0", One)>>, <<>>), Obj(<<P(Kr, Ref(<<"@t0">>, <<>>)), SC("@t1", Ref(<<"@t0">>, <<OptR>>))>>, <<>>),
+             \* a type named only in the value of a key-shortcut property (directly, inside an object, inside an array)
+             Obj(<<SC("@t0", Ref(<<"@t1">>, <<>>))>>, <<>>), Obj(<<SC("@t0", Obj(<<P(Ka, Ref(<<"@t1">>, <<>>))>>, <<>>))>>, <<>>),
+             Obj(<<SC("@t0", Arr(<<Ref(<<"@t1">>, <<>>)>>, <<>>))>>, <<>>)}
 DeepRoots == {Obj(<<P(Kr, Ref(<<"@t0">>, <<>>)), P(Kx, Ref(<<"@t1">>, <<>>))>>, <<>>)}
 Roots == IF Level = 3 THEN DeepRoots ELSE IF Level = 4 THEN KeyRoots ELSE {Ref(<<"@t0">>, <<>>), Obj(<<P(Kr, Ref(<<"@t0">>, <<>>)), P(Kx, Ref(<<TName(NTypes - 1)>>, <<OptR>>))>>, <<>>)}
 
